@@ -32,7 +32,7 @@ UNARY_SELECTORS = ['selecttrue', 'selectfalse', 'selectnone', 'selectnotnone']
 OTHER = ['select-callable', 'select-expr', 'select-field', 'select-multifield', 'biselect', 'facet', 'rowlenselect', 'search', 'search-field',
          'searchcomplement', 'selectusingcontext', 'rowslice', 'head', 'tail', 'skip']
 REQUIRED = (['sel:' + s for s in ORDER_SELECTORS + RANGE_SELECTORS + VALUE_SELECTORS + UNARY_SELECTORS + OTHER] +
-            ['ragged-row-read-as-missing', 'complement', 'reference-value-none', 'reference-value-foreign-type', 'recording-predicate-rows', 'rows-are-Record-objects'])
+            ['ragged-row-read-as-missing', 'complement', 'reference-value-none', 'reference-value-foreign-type', 'recording-predicate-rows', 'rows-are-Record-objects', 'field-given-as-a-one-element-sequence'])
 
 TYPES = {'int': int, 'str': str, 'float': float, 'bool': bool, 'NoneType': type(None), 'tuple': tuple, 'bytes': bytes}
 PREDS = {
@@ -100,6 +100,9 @@ def cases(ctx):
     yield _mk('select-multifield', T, field=('f0', 'f1'), args=['truthy'])
     yield _mk('facet', [['k', 'v'], [1, 'a'], [2, 'b'], [1, 'c'], [None, 'd'], [1.0, 'e'], ['x', 'f']], field='k')
     yield _mk('facet', [['k', 'v'], [1, 'a'], [2], [], [1, 'c']], field='v')
+    FT = [['k', 'v', 'w'], [1, 'a', 'x'], [2, 'b', 'x'], [1, 'c', 'y'], [None, 'd', 'x'], ['x', 'a', 'y'], [2, 'b', 'y']]
+    for fld in (['k'], ('k',), [0], 1, ('k', 'w'), ['v', 'w'], 'w'):
+        yield _mk('facet', FT, field=fld)
     for n in range(0, 6):
         yield _mk('rowlenselect', T, args=[n])
         yield _mk('rowlenselect', T, args=[n], complement=True)
@@ -137,8 +140,11 @@ def cases(ctx):
         t = gen.table(rng, nrows=rng.randint(0, 7), nfields=nf, pool=pool, ragged=0.3 if rng.random() < 0.5 else 0.0)
         s = field_sel[i % len(field_sel)]
         f = rng.choice(t[0])
-        if rng.random() < 0.2:
+        r_ = rng.random()
+        if r_ < 0.2:
             f = t[0].index(f)
+        elif r_ < 0.3:
+            f = rng.choice([[f], (f,), [t[0].index(f)]])      # a one-element sequence selects the same single field
         v = rng.choice(pool + [rng.choice(gen.POOL)])
         v2 = rng.choice(pool + [rng.choice(gen.POOL)])
         kw = {'field': f, 'complement': rng.random() < 0.4}
@@ -295,6 +301,8 @@ def judge(case, ctx):
         if 0 < len(exp) < len(rows):
             ctx.mark_nontrivial()
 
+    if isinstance(field, (list, tuple)) and len(field) == 1:
+        ctx.seen('field-given-as-a-one-element-sequence')
     if sel in ORDER_SELECTORS + RANGE_SELECTORS + VALUE_SELECTORS + UNARY_SELECTORS:
         pred = _value_pred(sel, args)
         exp = []
